@@ -108,6 +108,42 @@ func VHKeyedReaders() {
 	vCover("keyed readers done")
 }
 
+// VHKeyedClear: ClearKey of an idle key, concurrent with other goroutines working on other
+// keys, must not disturb them: a held key stays held (TryLockKey fails), mutual exclusion
+// on it is preserved.
+func VHKeyedClear() {
+	keys := c09keys()
+	idle := vInt("idle")
+	vAssume(idle != keys[0])
+	vAssume(idle != keys[1])
+	var km KeyedMutex[int]
+	occ := 0
+	if vChoose("warmIdle", 2) == 1 {
+		km.LockKey(idle)
+		km.UnlockKey(idle)
+	}
+	km.LockKey(keys[0]) // held by the main goroutine throughout
+	vGo(func() { km.ClearKey(idle) })
+	vGo(func() {
+		if km.TryLockKey(keys[0]) {
+			occ++
+			vAssert(false, "TryLockKey fails while the key is held - a concurrent ClearKey of another, idle key does not change that")
+		}
+	})
+	if vChoose("third", 2) == 1 {
+		vGo(func() {
+			km.LockKey(keys[1])
+			km.UnlockKey(keys[1])
+		})
+	}
+	vAssert(vWait(), "no call blocks")
+	vAssert(!km.TryLockKey(keys[0]), "the held key is still held after the other goroutines finished")
+	km.UnlockKey(keys[0])
+	vAssert(km.TryLockKey(keys[0]), "and free again after UnlockKey")
+	_ = occ
+	vCover("keyed clear done")
+}
+
 // VHKeyedIndep: a goroutine holding key a forever never delays key b.
 func VHKeyedIndep() {
 	keys := c09keys()
